@@ -64,12 +64,12 @@ def combos(fields, cap=16):
         return list(itertools.product([0, 1], repeat=n))
     return [tuple(i % 2 for i in range(n)), tuple((i + 1) % 2 for i in range(n)), tuple(0 for _ in range(n)), tuple((i // 2) % 2 for i in range(n))]
 
-def json_named(fields, choice):
+def json_named(fields, choice, names=None):
     items = []
     for i, (ft, c) in enumerate(zip(fields, choice)):
         j = ft.vals[c][2]
         if j is not None:
-            items.append(f'"{ft.json_key or ("f%d" % i)}":{j}')
+            items.append(f'"{ft.json_key or (names[i] if names else ("f%d" % i))}":{j}')
     return "{" + ",".join(items) + "}"
 
 def json_tuple(fields, choice):
@@ -81,7 +81,7 @@ def json_tuple(fields, choice):
 def converts(f):
     return f.conv
 
-def add_struct(fields, named):
+def add_struct(fields, named, names=None):
     # the derive needs at least one converted field (otherwise the marker parameter of the
     # generated data type is unused and the pinned tree itself does not compile)
     if not any(converts(f) for f in fields):
@@ -92,7 +92,8 @@ def add_struct(fields, named):
     name = fresh("Sn" if named else "St")
     g = "<G>" if gen else ""
     if named:
-        body = "{ " + ", ".join(field_decl_named(i, f) for i, f in enumerate(fields)) + " }"
+        fname = (lambda i: names[i]) if names else (lambda i: f"f{i}")
+        body = "{ " + ", ".join(f"{f.attrs}{fname(i)}: {f.ty}" for i, f in enumerate(fields)) + " }"
         types.append((name, f"{DERIVES}\npub struct {name}{g} {body}"))
     else:
         body = "(" + ", ".join(field_decl_tuple(f) for f in fields) + ");"
@@ -105,9 +106,9 @@ def add_struct(fields, named):
         inst = "::<Entity>" if any(f is GEN_E for f in fields) else "::<u32>"
     for ch in combos(fields):
         if named:
-            orig = name + inst + " { " + ", ".join(f"f{i}: {f.vals[c][0]}" for i, (f, c) in enumerate(zip(fields, ch))) + " }"
-            exp = name + inst + " { " + ", ".join(f"f{i}: {f.vals[c][1]}" for i, (f, c) in enumerate(zip(fields, ch))) + " }"
-            js = json_named(fields, ch)
+            orig = name + inst + " { " + ", ".join(f"{fname(i)}: {f.vals[c][0]}" for i, (f, c) in enumerate(zip(fields, ch))) + " }"
+            exp = name + inst + " { " + ", ".join(f"{fname(i)}: {f.vals[c][1]}" for i, (f, c) in enumerate(zip(fields, ch))) + " }"
+            js = json_named(fields, ch, names)
         else:
             orig = name + inst + "(" + ", ".join(f.vals[c][0] for f, c in zip(fields, ch)) + ")"
             exp = name + inst + "(" + ", ".join(f.vals[c][1] for f, c in zip(fields, ch)) + ")"
@@ -191,6 +192,13 @@ for named in (True, False):
     for w in (10, 11, 12):
         add_struct(wide(w), named)
         add_struct([ENT] + wide(w - 2) + [ENT], named)
+
+# field names that coincide with identifiers the generated code uses itself (`data`, `ids`, the
+# marker parameter) or with field names of the nested type: every field still gets its own value
+for names, fs in [(["data", "v"], [NEST, U32]), (["data", "e"], [NEST, ENT]), (["v", "data"], [U32, NEST]),
+                  (["data", "ids", "v"], [NEST, U32, U32]), (["ids", "data"], [ENT, U32]), (["e", "v", "data"], [ENT, U32, NEST]),
+                  (["data", "v", "e"], [NEST, SKU, ENT]), (["marker", "ma", "data"], [U32, ENT, STR]), (["self_", "ids"], [U32, ENT])]:
+    add_struct(fs, True, names=names)
 
 VARIANTS = [("unit", []), ("tuple", [ENT]), ("tuple", [U32]), ("tuple", [ENT, U32]), ("tuple", [ENT, ENT]), ("tuple", [NEST]),
             ("named", [ENT]), ("named", [U32, ENT]), ("named", [ENT, ENT]), ("named", [SKO, U32]), ("named", [NESTT, SKU])]
